@@ -392,12 +392,22 @@ def c09_scripts(c, srv, si, behs_all, behs_3, behs_deep, rng):
 
 # ------------------------------------------------------------------------------------------------ build / run / validate
 def build_servers(c, servers):
+    """one harness binary per declaration; a TLC-sampled declaration that does not compile is dropped with a note (the hand
+    written ones must build)"""
     def one(s):
-        s.exe = vlib.build(c, "att_" + s.name, ["att/att_harness.cpp"],
-                           defines=['VERIF_SERVER_HEADER="%s"' % os.path.basename(s.hpp)], includes=["-I" + os.path.dirname(s.hpp)])
+        try:
+            s.exe = vlib.build(c, "att_" + s.name, ["att/att_harness.cpp"],
+                               defines=['VERIF_SERVER_HEADER="%s"' % os.path.basename(s.hpp)], includes=["-I" + os.path.dirname(s.hpp)])
+        except vlib.ToolFailure as e:
+            if "_sample_" not in s.name:
+                raise
+            s.exe = None
+            c.note("sampled declaration %s dropped, it does not compile: %s" % (s.name, str(e)[-300:].replace("\n", " ")))
         return s
     with ThreadPoolExecutor(min(len(servers), JOBS)) as ex:
-        return list(ex.map(one, servers))
+        list(ex.map(one, servers))
+    servers[:] = [s for s in servers if s.exe]
+    return servers
 
 
 def run_execs(c, srv, tag, execs):
